@@ -182,8 +182,32 @@ def load_python(c: Compiled, binding: Optional[Binding] = None, extra_globals=No
     return f, ns
 
 
+def call_real(c: Compiled, args):
+    """call the real compiled function; the Fortran convention returns nothing and fills the dy argument"""
+    r = c.func(*args)
+    if r is None:
+        r = args[2]
+    return r
+
+
 def run_symbolic(c: Compiled, binding: Binding, y_sym=None, t_sym=None, hist=None, skip=(), overrides=None):
-    """Execute the emitted Python text on symbols.  Returns (output array, sargs)."""
+    """Execute the emitted text on symbols (Python text under the library models, Fortran text through f90smt).
+    Returns (output array, sargs)."""
+    if c.backend == 'fortran':
+        from . import f90smt
+        ny = int(np.asarray(tv_to_np(c.args[1])).size)
+        if y_sym is None:
+            y_sym = symx.symarray('y', ny)
+        if t_sym is None:
+            t_sym = symx.real('t')
+        it = f90smt.load(c.src)
+        u = it.units.get(c.fname.lower())
+        if u is not None and isinstance(t_sym, symx.Sym) and (u.decls.get(u.args[0]) or {}).get('type') == 'integer':
+            # fixed-step compiles declare the step counter as INTEGER: evaluate at the returned initial counter
+            t_sym = int(np.asarray(c.args[0]).reshape(-1)[0])
+        sargs = bind_args(c, binding, y_sym, t_sym, hist=hist, skip=skip, overrides=overrides)
+        it.call(c.fname, sargs)
+        return sargs[2], sargs
     ny = int(np.asarray(tv_to_np(c.args[1])).size)
     if y_sym is None:
         y_sym = symx.symarray('y', ny)
@@ -191,7 +215,11 @@ def run_symbolic(c: Compiled, binding: Binding, y_sym=None, t_sym=None, hist=Non
         t_sym = symx.real('t')
     sargs = bind_args(c, binding, y_sym, t_sym, hist=hist, skip=skip, overrides=overrides)
     f, ns = load_python(c, binding)
-    out = f(*sargs)
+    symx.STRICT_SETITEM = (c.backend != 'torch')
+    try:
+        out = f(*sargs)
+    finally:
+        symx.STRICT_SETITEM = True
     return out, sargs
 
 
